@@ -124,7 +124,9 @@ def worker(ctx, job):
                     else:
                         if is_checked and klass not in ("pristine", "symlink-identical") and rep["err"].get("variant") == "IntegrityError":
                             # verification failed: the unverified bytes must not be at the destination
-                            allowed = (None,) if dstate not in ("existing", "existing-same-length", "existing-longer", "linked-to-content") else (None, prev, damaged_bytes)
+                            # (a destination that already existed keeps what it held; only one that shares the content file's inode holds the damage)
+                            allowed = (None,) if dstate not in ("existing", "existing-same-length", "existing-longer", "linked-to-content") else \
+                                ((None, prev, damaged_bytes) if dstate == "linked-to-content" else (None, prev))
                             if after not in allowed and after == damaged_bytes and after != data:
                                 V.violation(res, sig + ":unverified-bytes-left", "checked extraction failed verification but left the damaged bytes at the destination",
                                             {"engine": "seqx", "case": case, "reply": rep})
